@@ -228,112 +228,146 @@ def _field_indices(cfg, stmts, fn):
     return out
 
 
-def run(ck, repo: Repo, tier: str):
-    nf = NF(repo, inline_depth=1, inline_calls=False)
+def _add_sample_effects(ck, repo, nf):
+    """R1-R3 on SubtrajectoryReplayBuffer.add_sample as *per-path effect summaries* over the entry state.
+
+    Every acyclic path entry -> return is evaluated symbolically (sympath.PathEval: environment of locals, store of attribute /
+    subscript locations; helpers are already expanded, aliases disappear in the normal forms).  A path is summarised by: the ordered
+    mask stores (index, value), the final write position / length / episode counter, whether the episode-end condition and the
+    enabling condition hold on it.  The summaries are compared with the protocol; local names, statement order of independent
+    effects and helper structure do not matter."""
+    from ..sympath import enumerate_paths, PathEval
+    from ..sem import _negate, _flatten_and
     fn = _m(repo, CQ, "add_sample")
     mi = fn._module
     cfg = nf.cfg_of(fn)
     site = CQ + ".add_sample"
-    sc = Scope(None, mi, {}, site)
-    masks = _mask_stores(cfg, repo.cls(CQ))
-    advs = [n for n in cfg.nodes if n.kind == "stmt" and isinstance(n.ast, ast.Assign) and dotted(n.ast.targets[0]) == "self.insert_idx"]
-    ck.need(len(advs) == 2, f"{site}: expected two advances of insert_idx (transition + successor row), found {len(advs)}")
-    for a in advs:
-        v = nf.poly(a.ast.value, sc, None).canon()
-        ck.ob("R1-mask-clear-on-write", site, f"advance:{'tail' if cfg.control_deps(a.id) else 'main'}", v == "mod(1 + self.insert_idx, self.buffer_size)", f"insert_idx' = {v}", "" if v == "mod(1 + self.insert_idx, self.buffer_size)" else "the write position must advance by one modulo the capacity", loc(mi, a.ast))
-    a_main = next(a for a in advs if not cfg.control_deps(a.id))
-    a_tail = next(a for a in advs if cfg.control_deps(a.id))
-    # R1: a clear store at the write slot before each advance
-    def idx_of(n):
-        return nf.poly(n.idx, sc, None).canon()
-    clears_main = [n for n in masks if idx_of(n) == "self.insert_idx" and n.value() == "0" and not cfg.control_deps(n.id)]
-    ok = len(clears_main) == 1 and cfg.dominates(clears_main[0].id, a_main.id)
-    ck.ob("R1-mask-clear-on-write", site, "clear-transition-slot", ok, f"{[short(n.ast) for n in clears_main]}", "" if ok else "the slot being overwritten must be removed from the valid start indices before the position advances: otherwise windows cross the write position into overwritten data", loc(mi, fn))
-    clears_tail = [n for n in masks if idx_of(n) in ("self.insert_idx", "mod(self.insert_idx, self.buffer_size)") and n.value() == "0" and cfg.control_deps(n.id)]
-    ok = len(clears_tail) == 1 and cfg.dominates(a_main.id, clears_tail[0].id) and cfg.dominates(clears_tail[0].id, a_tail.id)
-    ck.ob("R1-mask-clear-on-write", site, "clear-successor-row", ok, f"{[short(n.ast) for n in clears_tail]}", "" if ok else "the extra successor row written at an episode end must be excluded from the start indices", loc(mi, fn))
-    # R2 enabling store
-    enables = [n for n in masks if n.value() == "1"]
-    ck.need(len(enables) == 1, f"{site}: {len(enables)} enabling stores `mask_[..] = 1` in add_sample (unrecognised idiom: the mask protocol was restructured)")
-    ck.ob("R2-enable-offset-agreement", site, "single-enable", True, f"{[short(n.ast) for n in enables]}", "", loc(mi, fn))
-    for n in enables:
-        idx = idx_of(n)
-        g = guard_literals(nf, cfg, mi, n.id)
-        want_idx = nf.poly(parse_expr("(self.insert_idx - self.horizon) % self.buffer_size"), sc, None).canon()
-        want_g = spec(nf, mi, "self.episode_timesteps > self.horizon")
-        rel = [x for x in g if "episode_timesteps" in x]
-        other = [x for x in g if "episode_timesteps" not in x]
-        if other:
-            raise AnalysisError(f"{site}: the enabling store is additionally guarded by {other} (unrecognised idiom)")
-        before_adv = cfg.paths_avoiding(a_main.id, n.id, set()) is None
-        ok = idx == want_idx and rel == [want_g] and before_adv
-        why = ""
-        if not ok:
-            why = f"the start index enabled is `{idx}` under {g}: offset and threshold must both be self.horizon with a strict `>` (a window may only start `horizon` steps behind the write position once the episode is longer than the horizon)"
-        ck.ob("R2-enable-offset-agreement", site, "offset-equals-threshold", ok, f"`{short(n.ast)}` if {g}", why, loc(mi, n.ast))
-    # episode counter
-    ET = "self.episode_timesteps"
-    writes_et = [n for n in cfg.nodes if n.kind == "stmt" and isinstance(n.ast, (ast.Assign, ast.AugAssign)) and dotted(n.ast.targets[0] if isinstance(n.ast, ast.Assign) else n.ast.target) == ET]
+    where = loc(mi, fn)
+    rets = [n for n in cfg.nodes if n.kind == "stmt" and isinstance(n.ast, ast.Return)]
+    stops = {r.id for r in rets} or {cfg.exit}
+    sc0 = Scope(None, mi, {}, site)
 
-    def new_value(n):
-        if isinstance(n.ast, ast.Assign):
-            return nf.poly(n.ast.value, sc, None).canon()
-        return nf._binop_polys(Poly.atom(ET, {ET}, {ET}), nf.poly(n.ast.value, sc, None), n.ast.op).canon()
-    incs = [n for n in writes_et if new_value(n) == f"1 + {ET}"]
-    resets = [n for n in writes_et if new_value(n) == "0"]
-    odd = [n for n in writes_et if n not in incs and n not in resets]
-    ok = len(incs) == 1 and not odd and not cfg.control_deps(incs[0].id) and all(cfg.dominates(incs[0].id, n.id) for n in enables)
-    ck.ob("R2-enable-offset-agreement", site, "episode-counter", ok, f"{[short(n.ast) for n in writes_et]}", "" if ok else "episode_timesteps must count this step (exactly +1, unconditionally) before the guard is evaluated", loc(mi, fn))
-    # R3 tail
-    tails = [n for n in masks if n not in enables and n not in clears_main and n not in clears_tail]
-    ck.need(len(tails) == 1, f"{site}: {len(tails)} tail stores in add_sample (unrecognised idiom: the mask protocol was restructured)")
-    ck.ob("R3-tail", site, "single-tail-store", True, f"{[short(n.ast, 70) for n in tails]}", "", loc(mi, fn))
-    if len(tails) == 1:
-        t = tails[0]
-        g = guard_literals(nf, cfg, mi, t.id)
-        want_end = {spec(nf, mi, "sample['terminated'] or sample['truncated']"), spec(nf, mi, "sample['truncated'] or sample['terminated']")}
-        okg = len(g) == 1 and g[0] in want_end
-        if not okg and not any("terminated" in x or "truncated" in x for x in g):
-            raise AnalysisError(f"{site}: the tail store is guarded by {g} (unrecognised idiom)")
-        ck.ob("R3-tail", site, "episode-end-branch", okg, f"under {g}", "" if okg else "the tail is (de)activated exactly when the episode ended (terminated or truncated)", loc(mi, t.ast))
-        v = t.value()
-        vc = nf.poly(t.val, sc, None).canon()
-        good = {nf.poly(parse_expr(x), sc, None).canon() for x in ("0 if sample['truncated'] else 1", "1 - sample['truncated']", "not sample['truncated']", "int(not sample['truncated'])", "1 - int(sample['truncated'])")}
-        okv = v == "0 if sample['truncated'] else 1" or vc in good
-        if not okv and "truncated" in vc and "terminated" not in vc and vc not in ("sample['truncated']",) and not vc.startswith("ite("):
-            raise AnalysisError(f"{site}: tail value `{vc}` not recognised")
-        ck.ob("R3-tail", site, "truncated-disables", okv, f"value = {v}", "" if okv else "truncated tails must be masked out (0), terminated tails enabled (1)", loc(mi, t.ast))
-        # index expression via reaching definition
-        idx = t.idx
-        if isinstance(idx, ast.Name):
-            ds = cfg.defs_of(t.id, idx.id)
-            idx = ds[0].value if len(ds) == 1 else idx
-        iv = nf.poly(idx, sc, None).canon()
-        want = nf.poly(parse_expr("(self.insert_idx - np.arange(min(self.episode_timesteps, self.horizon)) - 1) % self.buffer_size"), sc, None).canon()
-        oki = iv == want and cfg.dominates(a_main.id, t.id)
-        ck.ob("R3-tail", site, "last-min(len,horizon)-slots", oki, f"index = {iv}", "" if oki else f"must be the last min(episode_timesteps, horizon) written slots: {want} (evaluated after the first advance)", loc(mi, t.ast))
-    ok = len(resets) == 1 and bool(cfg.control_deps(resets[0].id)) and (not tails or cfg.dominates(tails[0].id, resets[0].id)) and set(guard_literals(nf, cfg, mi, resets[0].id)) == set(guard_literals(nf, cfg, mi, tails[0].id) if tails else [])
-    ck.ob("R3-tail", site, "episode-counter-reset", ok, f"{[short(n.ast) for n in resets]}", "" if ok else "episode_timesteps must be reset to 0 exactly at the episode end, after the tail was marked", loc(mi, fn))
-    # successor row: written at the (advanced) write position, observation <- next_observation
-    succ = []
-    for n in cfg.nodes:
-        s_ = n.ast
-        if n.kind == "stmt" and isinstance(s_, ast.Assign) and isinstance(s_.targets[0], ast.Subscript) and isinstance(s_.targets[0].value, ast.Subscript) and dotted(s_.targets[0].value.value) == "self.buffer" \
-                and cfg.paths_avoiding(a_main.id, n.id, set()) is not None and cfg.paths_avoiding(n.id, a_tail.id, set()) is not None and cfg.control_deps(n.id):
-            succ.append(n)
-    obs_rows = [n for n in succ if isinstance(n.ast.targets[0].value.slice, ast.Constant) and n.ast.targets[0].value.slice.value == "observation"]
-    if not obs_rows:
+    def S(txt):
+        return nf.poly(parse_expr(txt), sc0, None).canon()
+    I0, N, H, ET, LEN = "self.insert_idx", "self.buffer_size", "self.horizon", "self.episode_timesteps", "self.current_len"
+    NEXT = S(f"({I0} + 1) % {N}")
+    NEXT2 = S(f"(({I0} + 1) % {N} + 1) % {N}")
+    END = {S("sample['terminated'] or sample['truncated']"), S("sample['truncated'] or sample['terminated']")}
+    ENABLE_T = S(f"{ET} + 1 > {H}")
+    ENABLE_IDX = S(f"({I0} - {H}) % {N}")
+    TAIL_IDX = {S(f"(({I0} + 1) % {N} - np.arange(min({ET} + 1, {H})) - 1) % {N}")}
+    TAIL_VAL = {nf.poly(parse_expr(x), sc0, None).canon() for x in ("0 if sample['truncated'] else 1", "1 - sample['truncated']", "not sample['truncated']", "int(not sample['truncated'])", "1 if not sample['truncated'] else 0")}
+    LEN1, LEN2 = S(f"min({LEN} + 1, {N})"), S(f"min(min({LEN} + 1, {N}) + 1, {N})")
+    try:
+        paths = enumerate_paths(cfg, cfg.entry, stops, max_paths=40000)
+    except RuntimeError:
+        raise AnalysisError(f"{site}: too many paths for the per-path evaluation")
+    sums = {}
+    for pth in paths:
+        pe = PathEval(nf, cfg, mi, site, {})
+        lits = []
+        for nid, lab in pth[:-1]:
+            nd = cfg.nodes[nid]
+            if nd.kind == "test" and lab in (True, False) and hasattr(nd.ast, "test") and isinstance(nd.ast, ast.If):
+                c = pe.ev(nd.ast.test).canon()
+                lits += _flatten_and(c) if lab else [_negate(c)]
+            pe.step(nid, lab)
+        masks = tuple((ix, v.canon()) for _, b, ix, v in pe.effects if b == "self.mask_" and ix is not None)
+        fin = tuple(pe.store[x].canon() if x in pe.store else x for x in (I0, LEN, ET))
+        ended = any(l in END for l in lits) or any(l.startswith("or(") and "terminated" in l and "truncated" in l for l in lits)
+        not_ended = any(l in {f"not({e})" for e in END} for l in lits) or (any("not(sample['terminated'])" == l for l in lits) and any("not(sample['truncated'])" == l for l in lits))
+        a_, b_ = S(f"{ET} + 1"), H
+        rel = [l for l in lits if l in (f"Lt({b_}, {a_})", f"LtE({b_}, {a_})", f"Lt({a_}, {b_})", f"LtE({a_}, {b_})", f"Eq({a_}, {b_})", f"Eq({b_}, {a_})")]
+        enable = f"Lt({b_}, {a_})" in rel                                   # the path condition implies episode_timesteps' > horizon
+        no_enable = f"LtE({a_}, {b_})" in rel or f"Lt({a_}, {b_})" in rel    # ... implies episode_timesteps' <= horizon
+        weak = tuple(r for r in rel if r in (f"LtE({b_}, {a_})", f"Eq({a_}, {b_})", f"Eq({b_}, {a_})"))
+        sums.setdefault((masks, fin, ended, not_ended, enable, no_enable, weak), tuple(sorted(set(lits))))
+    ck.count("add_sample-paths", len(paths))
+    ck.count("add_sample-effect-summaries", len(sums))
+    if len(sums) < 2:
+        raise AnalysisError(f"{site}: only {len(sums)} distinct effect summaries (expected plain-step and episode-end paths)")
+    seen_keys = set()
+
+    def ob(rule, key, ok, construct, why):
+        if (rule, key, ok) in seen_keys:
+            return
+        seen_keys.add((rule, key, ok))
+        ck.ob(rule, site, key, ok, construct, "" if ok else why, where)
+    for (masks, fin, ended, not_ended, enable, no_enable, weak), lits in sorted(sums.items(), key=lambda kv: str(kv[0])):
+        if ended == not_ended:
+            # the path does not pass the episode-end test in a recognised form
+            if not masks and fin == (I0, LEN, ET):
+                continue   # a path without effects (e.g. an early exception exit)
+            raise AnalysisError(f"{site}: a path with mask effects {masks[:2]} is not classified by the episode-end condition (literals {list(lits)[:4]})")
+        if enable == no_enable:
+            if weak and any(m[1] == "1" for m in masks):
+                ob("R2-enable-offset-agreement", "offset-equals-threshold", False, f"a start index is enabled under {list(weak)}",
+                   "the enabling condition does not imply episode_timesteps > horizon (off by one): a window starting there reaches back one step into the previous episode")
+                continue
+            raise AnalysisError(f"{site}: a path is not classified by the enabling condition episode_timesteps > horizon (literals {list(lits)[:4]})")
+        tag = ("end" if ended else "step") + ("+enable" if enable else "")
+        idxs = [m[0] for m in masks]
+        # R1: the written slot is cleared, and it is the first mask effect on that slot
+        clear_pos = [k for k, m in enumerate(masks) if m == (I0, "0")]
+        ob("R1-mask-clear-on-write", "clear-transition-slot", bool(clear_pos) and idxs.index(I0) == clear_pos[0], f"[{tag}] mask effects {list(masks)[:5]}",
+           "the slot being overwritten must be removed from the valid start indices (mask_[insert_idx] = 0 with the pre-advance index): otherwise windows cross the write position into overwritten data")
+        # R2: enabling store
+        ones = [m for m in masks if m[1] == "1"]
+        if enable:
+            ok = ones == [(ENABLE_IDX, "1")]
+            ob("R2-enable-offset-agreement", "offset-equals-threshold", ok, f"[{tag}] enabling stores {ones} under {ENABLE_T}",
+               f"once the episode is longer than the horizon exactly the start `horizon` steps behind the write position becomes valid (expected {ENABLE_IDX}): offset and threshold must both be self.horizon")
+        else:
+            ok = not ones
+            ob("R2-enable-offset-agreement", "no-enable-below-threshold", ok, f"[{tag}] enabling stores {ones} under not({ENABLE_T})",
+               "a start index is enabled although the episode is not yet longer than the horizon: its window reaches back into the previous episode")
+        extra = [m for m in masks if m not in ((I0, "0"), (ENABLE_IDX, "1"))]
+        if not ended:
+            ob("R3-tail", "no-tail-before-episode-end", not extra, f"[{tag}] other mask effects {extra}", "mask entries other than the written slot and the horizon-delayed start change although the episode goes on")
+            ob("R1-mask-clear-on-write", "advance:main", fin[0] == NEXT, f"[{tag}] insert_idx' = {fin[0]}", "the write position must advance by one modulo the capacity")
+            ob("R1-mask-clear-on-write", "length-per-written-row", fin[1] == LEN1, f"[{tag}] current_len' = {fin[1]}", "each written row increases the length, saturating at the capacity")
+            ob("R2-enable-offset-agreement", "episode-counter", fin[2] == S(f"{ET} + 1"), f"[{tag}] episode_timesteps' = {fin[2]}", "episode_timesteps must count this step (exactly +1)")
+        else:
+            succ_clear = [m for m in extra if m[0] in (NEXT, S(f"(({I0} + 1) % {N}) % {N}")) and m[1] == "0"]
+            ob("R1-mask-clear-on-write", "clear-successor-row", len(succ_clear) == 1, f"[{tag}] successor-row clear {succ_clear}", "the extra successor row written at an episode end must be excluded from the start indices")
+            tails = [m for m in extra if m not in succ_clear]
+            if len(tails) != 1:
+                raise AnalysisError(f"{site}: {len(tails)} tail effects on an episode-end path ({tails[:3]}): the vectorised tail store was restructured (unrecognised idiom)")
+            tidx, tval = tails[0]
+            okv = tval in TAIL_VAL
+            if not okv and "truncated" in tval and "terminated" not in tval and not tval.startswith("ite(") and tval != "sample['truncated']":
+                raise AnalysisError(f"{site}: tail value `{tval}` not recognised")
+            ob("R3-tail", "truncated-disables", okv, f"[{tag}] tail value = {tval}", "truncated tails must be masked out (0), terminated tails enabled (1)")
+            ob("R3-tail", "last-min(len,horizon)-slots", tidx in TAIL_IDX, f"[{tag}] tail index = {tidx}", f"must be the last min(episode_timesteps, horizon) written slots: {sorted(TAIL_IDX)[0]}")
+            # the clear of the written slot precedes the tail store (which may re-enable that very slot)
+            pos_tail = masks.index(tails[0])
+            ob("R3-tail", "tail-after-clear", bool(clear_pos) and clear_pos[0] < pos_tail, f"[{tag}] clear at effect {clear_pos[:1]}, tail at effect {pos_tail}", "the tail must be marked after the written slot was cleared, otherwise the clear wipes the last start of a terminated episode")
+            ob("R1-mask-clear-on-write", "advance:tail", fin[0] == NEXT2, f"[{tag}] insert_idx' = {fin[0]}", "at an episode end the write position must advance by two rows (transition + successor row) modulo the capacity")
+            ob("R1-mask-clear-on-write", "length-per-written-row", fin[1] == LEN2, f"[{tag}] current_len' = {fin[1]}", "each written row (incl. the successor row) increases the length, saturating at the capacity")
+            ob("R3-tail", "episode-counter-reset", fin[2] == "0", f"[{tag}] episode_timesteps' = {fin[2]}", "episode_timesteps must be reset to 0 at the episode end")
+    # successor row content: observation <- next_observation at the slot after the transition (path evaluation of the buffer stores)
+    ok_succ = None
+    for pth in paths:
+        pe = PathEval(nf, cfg, mi, site, {}).run(pth[:-1])
+        obs_eff = [(ix, v.canon()) for _, b, ix, v in pe.effects if b == "self.buffer['observation']" and ix != I0]
+        if obs_eff:
+            # the last store to the successor row's observation decides its content
+            ok_succ = (ok_succ is None or ok_succ) and all(ix in (NEXT, S(f"(({I0} + 1) % {N}) % {N}")) for ix, _ in obs_eff) and obs_eff[-1][1] == "sample['next_observation']"
+    if ok_succ is None:
         raise AnalysisError(f"{site}: the store of the successor row's observation was not found (unrecognised idiom)")
-    last = obs_rows[-1]
-    val = nf.poly(last.ast.value, sc, None).canon()
-    at_idx = all(nf.poly(n.ast.targets[0].slice, sc, None).canon() in ("self.insert_idx", "mod(self.insert_idx, self.buffer_size)") for n in succ)
-    ok = val == "sample['next_observation']" and at_idx and not any(cfg.paths_avoiding(last.id, m.id, set()) is not None and m is not last for m in obs_rows if m.id != last.id and False)
-    ck.ob("R3-tail", site, "successor-row-content", ok, f"`{short(last.ast, 70)}`; all successor-row stores at the advanced write position: {at_idx}",
-          "" if ok else "the extra row after an episode end must hold the final successor observation at the slot following the last transition (it is what next_observation of the last window reads)", loc(mi, last.ast))
-    lens = [n for n in cfg.nodes if n.kind == "stmt" and isinstance(n.ast, ast.Assign) and dotted(n.ast.targets[0]) == "self.current_len"]
-    ok = len(lens) == 2 and all(nf.poly(n.ast.value, sc, None).canon() == "min(1 + self.current_len, self.buffer_size)" for n in lens)
-    ck.ob("R1-mask-clear-on-write", site, "length-per-written-row", ok, f"{len(lens)} length updates", "" if ok else "each written row (incl. the successor row) increases the length, saturating at the capacity", loc(mi, fn))
+    ck.ob("R3-tail", site, "successor-row-content", ok_succ, "observation of the extra row <- next_observation at (insert_idx + 1) % buffer_size",
+          "" if ok_succ else "the extra row after an episode end must hold the final successor observation at the slot following the last transition (it is what next_observation of the last window reads)", where)
 
+
+def run(ck, repo: Repo, tier: str):
+    nf = NF(repo, inline_depth=1, inline_calls=False)
+    mi = repo.cls(CQ)._module
+    ck.guard(_add_sample_effects, ck, repo, nf)
+    ck.guard(_sampling_rules, ck, repo, nf)
+
+
+def _sampling_rules(ck, repo, nf):
+    mi = repo.cls(CQ)._module
     # ---- R4 ------------------------------------------------------------------------------------------------------
     f2 = _m(repo, CQ, "_sample_idx")
     c2 = nf.cfg_of(f2)
